@@ -1,7 +1,7 @@
 //@unit C02_dohorizontal
 //@props C02 C01
 //@safetyprops C10
-//@desc ClipperBase::DoHorizontal for one closed-path horizontal edge that is followed by a non-horizontal one - BOUNDED harness (AEL of the horizontal plus 3 resident edges in any position, x positions symbolic and ordered, no joined edges; real GetCurrYMaximaVertex, ResetHorzDirection, NextVertex, SwapPositionsInAEL, DeleteFromAEL and the edge predicates; AddOutPt, IntersectEdges, AddLocalMaxPoly, UpdateEdgeIntoAEL, the join checks and TopX are stubs that check the state they are called in). The horizontal sweeps from its current x towards its top x: every crossing is made with the IMMEDIATE neighbour in that direction, at the point (x of the crossed edge, y of the horizontal) - both coordinates are existing coordinates, which is what axis-parallel exactness needs -, the horizontal first when heading right and second when heading left, followed at once by the swap of exactly that pair, a join check on the crossed edge at the same point and the horizontal's current x moving there. An intermediate horizontal crosses exactly the edges strictly inside its span and none beyond it (edges exactly at its end may go either way: that depends on slopes), then adds its top vertex if hot and moves on to its next segment (UpdateEdgeIntoAEL, once); a hot one starts by adding the vertex at its current position. A horizontal that ends in a local maximum crosses everything up to its partner, closes the maximum with the partner in left-right order at its top if hot, and both are unlinked and freed once.
+//@desc ClipperBase::DoHorizontal for one closed-path horizontal edge that is followed by a non-horizontal one - BOUNDED harness (AEL of the horizontal plus 3 resident edges in any position, x positions symbolic and ordered, no joined edges; real GetCurrYMaximaVertex, ResetHorzDirection, NextVertex, SwapPositionsInAEL, DeleteFromAEL and the edge predicates; AddOutPt, IntersectEdges, AddLocalMaxPoly, UpdateEdgeIntoAEL, the join checks and TopX are stubs that check the state they are called in). The horizontal sweeps from its current x towards its top x: every crossing is made with the IMMEDIATE neighbour in that direction, at the point (x of the crossed edge, y of the horizontal) - both coordinates are existing coordinates, which is what axis-parallel exactness needs -, the horizontal first when heading right and second when heading left, followed at once by the swap of exactly that pair, a join check on the crossed edge at the same point and the horizontal's current x moving there. An intermediate horizontal crosses exactly the edges strictly inside its span and none beyond it (edges exactly at its end may go either way: that depends on slopes), then adds its top vertex if hot and moves on to its next segment (UpdateEdgeIntoAEL, once); a hot one starts by adding the vertex at its current position. A horizontal that ends in a local maximum crosses everything up to its partner, closes the maximum with the partner in left-right order at its top if hot, and both are unlinked and freed once. Second run (C05): the final horizontal segment of an OPEN path stops at the path's end point - it crosses every edge strictly inside its span and nothing beyond -, adds the end point if hot, the open contour forgets that side, and the edge alone is unlinked and freed.
 #include "vf.h"
 #include <float.h>
 //@include engine_types.inc
@@ -62,8 +62,9 @@ static void CheckJoinRight__p(ClipperBase* s, Active* e, Point64 pt) { __CPROVER
 //@extract file=CPP/Clipper2Lib/src/clipper.engine.cpp func=GetCurrYMaximaVertex sig="const Active& e" byptr=e refmacro=1
 //@sub /IsMaxima\(\*result\)/IsMaximaV(result)/
 //@end
-static Vertex* GetCurrYMaximaVertex_Open__p(const Active* e) { __CPROVER_assert(0, "closed path"); return NULL; }
-#define GetCurrYMaximaVertex_Open(e) GetCurrYMaximaVertex_Open__p(&(e))
+//@extract file=CPP/Clipper2Lib/src/clipper.engine.cpp func=GetCurrYMaximaVertex_Open byptr=e refmacro=1
+//@sub /IsMaxima\(\*result\)/IsMaximaV(result)/
+//@end
 //@extract file=CPP/Clipper2Lib/src/clipper.engine.cpp func=ClipperBase::ResetHorzDirection as=ResetHorzDirection__r self=ClipperBase byptr=horz,horz_left,horz_right
 //@end
 #define ResetHorzDirection(s, h, mv, l, r) ResetHorzDirection__r(s, &(h), mv, &(l), &(r))
@@ -126,4 +127,38 @@ void h_DH(void)
   }
   VF_CANARY();
 }
+/* the last segment of an OPEN path is horizontal and ends at the path's end point */
+LocalMinima g_lmo;
+void h_DHO(void)
+{
+  ClipperBase cb; unsigned k = nondet_uint() % 4;
+  Active* ord[4]; for (unsigned i = 0; i < 4; ++i) ord[i] = i < k ? g_res[i] : (i == k ? &g_h : g_res[i - 1]);
+  for (unsigned i = 0; i < 4; ++i) { ord[i]->prev_in_ael = i ? ord[i - 1] : NULL; ord[i]->next_in_ael = i + 1 < 4 ? ord[i + 1] : NULL; }
+  cb.actives_ = ord[0];
+  g_lm.is_open = false; g_lm.polytype = PathType_Clip; g_lmo.is_open = true; g_lmo.polytype = PathType_Subject; g_or.is_open = true; g_op.outrec = &g_or;
+  Vertex* const vo[3] = { &g_vo0, &g_vo1, &g_vo2 };
+  int64_t y0 = nondet_i64(); g_y0 = y0;
+  for (int i = 0; i < 3; ++i) { g_res[i]->curr_x = nondet_i64(); g_res[i]->join_with = JoinWith_NoJoin; g_res[i]->local_min = &g_lm; g_res[i]->outrec = NULL; g_res[i]->vertex_top = vo[i]; vo[i]->flags = VertexFlags_Empty;
+    g_res[i]->top.x = nondet_i64(); g_res[i]->top.y = nondet_i64(); g_res[i]->bot.x = nondet_i64(); g_res[i]->bot.y = nondet_i64(); g_freed[i] = false; g_crossed[i] = 0; g_cross_seq[i] = -1; }
+  bool fwd = nondet_bool(); g_h.wind_dx = fwd ? 1 : -1; g_h.vertex_top = &g_vt; g_vt.next = fwd ? &g_vnx : &g_vpv; g_vt.prev = fwd ? &g_vpv : &g_vnx;
+  g_vt.pt.x = nondet_i64(); g_vt.pt.y = y0; g_vnx.pt.x = nondet_i64(); g_vnx.pt.y = nondet_i64(); g_vpv.pt = g_vnx.pt;
+  g_vt.flags = (nondet_bool() ? VertexFlags_OpenEnd : VertexFlags_OpenStart) | VertexFlags_LocalMax;       /* the path ends here */
+  g_h.top = g_vt.pt; g_h.bot.y = y0; g_h.bot.x = nondet_i64(); g_h.curr_x = g_h.bot.x; __CPROVER_assume(g_h.bot.x != g_h.top.x);
+  g_h.local_min = &g_lmo; g_h.join_with = JoinWith_NoJoin; bool hot = nondet_bool(), front = nondet_bool(); Active other; g_h.outrec = hot ? &g_or : NULL; g_or.front_edge = front ? &g_h : &other; g_or.back_edge = front ? &other : &g_h;
+  for (unsigned i = 0; i + 1 < 4; ++i) __CPROVER_assume(ord[i]->curr_x <= ord[i + 1]->curr_x);
+  int64_t x0 = g_h.curr_x, xt = g_h.top.x; g_ltr = x0 < xt;
+  g_freed_h = false; g_nfree_other = 0; g_seq = 0; g_pending = false; g_naop = 0; g_nupd = 0; g_nlmp = 0; g_ntrial = 0;
+  DoHorizontal__r(&cb, &g_h);
+  __CPROVER_assert(!g_pending && g_nfree_other == 0, "every crossing was followed by its swap; nothing foreign is freed");
+  for (unsigned d = 1; d < 4; ++d) { int pos = g_ltr ? (int)k + (int)d : (int)k - (int)d; if (pos >= 0 && pos < 4) { int r = ridx(ord[pos]); int64_t x = g_res[r]->curr_x;
+    __CPROVER_assert(g_crossed[r] <= 1, "an edge is crossed at most once");
+    if (g_ltr ? x < xt : x > xt) __CPROVER_assert(g_crossed[r] == 1, "the open horizontal crosses every edge strictly inside its span");
+    if (g_ltr ? x > xt : x < xt) __CPROVER_assert(g_crossed[r] == 0, "and NOTHING beyond its end point"); } }
+  for (unsigned d = 1; d < 4; ++d) { int pos = g_ltr ? (int)k - (int)d : (int)k + (int)d; if (pos >= 0 && pos < 4) __CPROVER_assert(g_crossed[ridx(ord[pos])] == 0, "edges behind it are left alone"); }
+  __CPROVER_assert(g_freed_h && !g_freed[0] && !g_freed[1] && !g_freed[2] && g_nupd == 0 && g_nlmp == 0, "the path ends: the horizontal alone is unlinked and freed; no next segment, no closed maximum");
+  __CPROVER_assert(g_naop == (hot ? 2 : 0) && (!hot || (g_aop_first.x == x0 && g_aop_first.y == y0 && g_aop_last.x == xt && g_aop_last.y == y0)), "a hot one adds its current position first and the path's end point last");
+  if (hot) __CPROVER_assert((front ? g_or.front_edge : g_or.back_edge) == NULL && (front ? g_or.back_edge : g_or.front_edge) == &other, "the open contour forgets the edge that ended, and only that side");
+  VF_CANARY();
+}
+//@run name=DoHorizontal.openend entry=h_DHO unwind=6 flags="--bounds-check --pointer-check" timeout=600 bounded="an open path's final horizontal plus 3 closed resident edges, every position, both directions, hot or not" props=C05,C02,C10
 //@run name=DoHorizontal.single entry=h_DH unwind=6 flags="--bounds-check --pointer-check" timeout=600 bounded="the horizontal plus 3 resident edges, every position, both directions, intermediate or local maximum, hot or not"
